@@ -452,6 +452,7 @@ pub fn global_fp(ty: VT, mutable: bool, init: &ConstE) -> Fp {
         ConstE::RefFunc(_) => Fp::GOther(ty, mutable, "ref.func".into()),
         ConstE::RefNull(_) => Fp::GOther(ty, mutable, "ref.null".into()),
         ConstE::ExtAdd(..) => Fp::Unknown("extadd".into()),
+        ConstE::StructNew(..) => Fp::GOther(ty, mutable, "struct.new".into()),
     }
 }
 
@@ -739,10 +740,16 @@ impl Model {
                 }
             }
         }
-        let mut ce = |c: &ConstE, f: &mut Vec<u32>, g: &mut Vec<u32>| match c {
-            ConstE::GlobalGet(x) => g.push(*x),
-            ConstE::RefFunc(x) => f.push(*x),
-            _ => {}
+        let mut ce = |c: &ConstE, f: &mut Vec<u32>, g: &mut Vec<u32>| {
+            let mut leaf = |c: &ConstE| match c {
+                ConstE::GlobalGet(x) => g.push(*x),
+                ConstE::RefFunc(x) => f.push(*x),
+                _ => {}
+            };
+            match c {
+                ConstE::StructNew(_, fields) => fields.iter().for_each(&mut leaf),
+                other => leaf(other),
+            }
         };
         for gl in self.globals.iter().filter(|g| !g.deleted) {
             if let MGK::Local { init, .. } = &gl.kind {
